@@ -117,10 +117,23 @@ def _run_case(case):
         else:
             out >> inp  # pylint: disable=pointless-statement
         inp.ping()
+        other = None
+        if case.get("prime") and not static and not case.get("stk") and case["dst"]["kind"] != "esri":
+            # a second consumer of the same output with the mirrored layout of the same geometry; prime = "first":
+            # it exchanges its metadata before the observed consumer, "second": after it (harness-level variant:
+            # what the observed consumer receives must not depend on its neighbour or on the order)
+            other = fm.Input(name="In0")
+            out >> other  # pylint: disable=pointless-statement
+            other.ping()
+            g0 = make_grid(dict(case["dst"], inc=[not x for x in case["dst"]["inc"]]))
         obs = {"res": "ok", "shape": [], "field": [], "mask": []}
         try:
             out.push_info(fm.Info(time=t0, grid=gs, units="m"))
+            if other is not None and case["prime"] == "first":
+                other.exchange_info(fm.Info(time=t0, grid=g0, units="m"))
             inp.exchange_info(fm.Info(time=t0, grid=gd, units="m"))
+            if other is not None and case["prime"] != "first":
+                other.exchange_info(fm.Info(time=t0, grid=g0, units="m"))
             out.push_data(arr, t0)
             if case.get("stk"):
                 out.push_data(arr + 500.0, day(1))
